@@ -1421,6 +1421,51 @@ def fn_item_args(prog, target_pred):
     return out
 
 
+FLOAT_CHANGE = {"clamp", "min", "max", "abs", "round", "floor", "ceil", "trunc", "sqrt", "cbrt", "powi", "powf", "ln", "log", "log2", "log10", "exp", "exp2", "recip", "signum", "mul_add", "fract",
+                "copysign", "rem_euclid", "div_euclid", "to_degrees", "to_radians", "ln_1p", "exp_m1", "Add", "Sub", "Mul", "Div", "Rem", "Neg", "as",
+                "AddWithOverflow", "SubWithOverflow", "MulWithOverflow", "unwrap_or", "unwrap_or_default", "unwrap_or_else", "map", "map_or", "sum", "product", "fold"}
+
+
+def steps_after_call(body, pv, pred, max_depth=12, start=0):
+    """what happens to the result of the call satisfying `pred` before it becomes the function's value: list of step names (methods /
+    operators) met on the def chain from `_0` back to that call; None when the call does not reach `_0` at all.  Constants assigned to `_0`
+    on other paths are not steps."""
+    defs = pv.defs(body)
+    found = [False]
+    steps = []
+
+    def walk(local, depth, trail):
+        if depth > max_depth:
+            return
+        for kind, pos, d in defs.get(local, []):
+            if kind == "call":
+                if pred(d):
+                    found[0] = True
+                    steps.extend(trail)
+                    continue
+                if d.callee.method in ("branch", "from_residual", "from", "into"):
+                    nt = trail
+                else:
+                    nt = trail + [d.callee.method or "call"]
+                for a in d.args:
+                    if a.place is not None:
+                        walk(a.place.local, depth + 1, nt)
+            else:
+                rv = d.rv
+                if rv["k"] in ("use", "cast") and rv["op"].place is not None:
+                    walk(rv["op"].place.local, depth + 1, trail + (["as"] if rv["k"] == "cast" else []))
+                elif rv["k"] == "bin":
+                    for o in (rv["l"], rv["r"]):
+                        if o.place is not None:
+                            walk(o.place.local, depth + 1, trail + [rv["op"]])
+                elif rv["k"] == "un" and rv["o"].place is not None:
+                    walk(rv["o"].place.local, depth + 1, trail + [rv["op"]])
+                elif rv["k"] == "ref":
+                    walk(rv["place"].local, depth + 1, trail)
+    walk(start, 0, [])
+    return steps if found[0] else None
+
+
 def receiver_calls(body, pv, op):
     """the call terminators between an operand and its source, walking receivers (args[0]) backwards (outermost first)"""
     out = []
@@ -1564,12 +1609,14 @@ EQ_METHODS = {"eq": ("Eq", False), "ne": ("Eq", True), "lt": ("Lt", False), "ge"
 EQ_BINOPS = {"Eq": ("Eq", False), "Ne": ("Eq", True), "Lt": ("Lt", False), "Ge": ("Lt", True), "Gt": ("Gt", False), "Le": ("Gt", True)}
 
 
-def bool_table(body, atom_key, max_paths=4096):
+def bool_table(body, atom_key, max_paths=4096, call_atom=None, place_atom=None):
     """Enumerate the paths of a loop-free boolean body.  Atomic predicates are comparison calls / binary comparisons;
     `atom_key(kind, lhs_operand, rhs_operand, body)` names one (hashable) or returns None (unknown -> whole table undecided).
     kind is the positive comparison ('Eq' | 'Lt' | 'Gt'); negated forms (ne, ge, le) are folded into the polarity.
     Returns a list of (assignment {key: bool}, result) with result True | False | ('atom', key, negated), or None when the body
-    is not a recognisable pure predicate (loop, unknown call, switch on a non-boolean)."""
+    is not a recognisable pure predicate (loop, unknown call, switch on a non-boolean).
+    Optional: `call_atom(call_terminator, body)` names the boolean result of another call (`x.is_empty()`), `place_atom(place, body)` a boolean
+    read from memory (`self.flag`)."""
     if body.natural_loops():
         return None
     rows = []
@@ -1578,9 +1625,14 @@ def bool_table(body, atom_key, max_paths=4096):
     def val_of(env, op):
         if op.kind == "const":
             v = op.int_value()
+            if v is None and op.const.get("ty") == "bool":
+                v = 1 if op.const.get("val") == "true" else 0
             return ("c", bool(v)) if v is not None else None
         if op.place is not None and op.place.is_local():
             return env.get(op.place.local)
+        if op.place is not None and place_atom is not None:
+            k = place_atom(op.place, body)
+            return None if k is None else ("a", k, False)
         return None
 
     def walk(bi, env, asg):
@@ -1613,7 +1665,8 @@ def bool_table(body, atom_key, max_paths=4096):
                 k = atom_key(kind, t.args[0], t.args[1], body)
                 env[t.dest.local] = None if k is None else ("a", k, neg)
             elif t.dest is not None and t.dest.is_local():
-                env[t.dest.local] = None
+                k = call_atom(t, body) if call_atom is not None else None
+                env[t.dest.local] = None if k is None else ("a", k, False)
             if t.target is None:
                 return
             walk(t.target, env, asg)
@@ -1861,12 +1914,44 @@ def getter_findings(prog, file_rx=r".*"):
         if base not in ftypes:
             continue
         got = field_names(pv.of_return(b), adt) & set(ftypes)
+        mixed = False
         if base in got:
             verdict = True
+            # a flag / number handed out by value is that field and nothing else: `obsolete() -> self.obsolete || self.replacement.is_some()`
+            # couples two facts the data keeps apart
+            if len(got) > 1 and str(b.locals[0].get("s", "")) in ("bool", "u8", "u16", "u32", "u64", "usize", "i32", "i64", "f32", "f64"):
+                verdict = False
+                mixed = True
         else:
             same = [g for g in got if ftypes[g] == ftypes[base]]
             verdict = False if same else None
-        out.append({"body": b, "field": base, "got": got, "verdict": verdict})
+        if str(b.locals[0].get("s", "")) == "bool" and ftypes.get(base) == "bool" and not b.natural_loops():
+            # a flag getter written with branches (`self.flag || other_test`): data flow alone misses the fields it BRANCHES on
+            import itertools
+
+            def place_atom(pl, body):
+                fs = [e for e in pl.fields() if e != "*"]
+                if pl.local == 1 and len(fs) == 1 and fs[0][0] == "f":
+                    return ("field", fs[0][1])
+                return None
+
+            def call_atom(t, body):
+                fl = field_names(pv.of_operand(body, t.args[0]), adt) & set(ftypes) if t.args else set()
+                return ("call", t.callee.method, tuple(sorted(fl))) if fl else None
+            rows = bool_table(b, lambda *a_: None, call_atom=call_atom, place_atom=place_atom)
+            if rows is not None:
+                keys = sorted({k for asg, r in rows for k in asg} | {r[1] for asg, r in rows if isinstance(r, tuple)}, key=str)
+                me = ("field", base)
+                differs = None
+                for bits in itertools.product((False, True), repeat=len(keys)):
+                    full = dict(zip(keys, bits))
+                    if eval_bool_table(rows, full) != full.get(me):
+                        differs = full
+                        break
+                if me in keys and differs is not None:
+                    verdict, mixed = False, True
+                    got = got | {k[1] if k[0] == "field" else "/".join(k[2]) for k in keys}
+        out.append({"body": b, "field": base, "got": got, "verdict": verdict, "mixed": mixed})
     return out
 
 
@@ -1877,7 +1962,7 @@ def check_getters(ck, rule, prog, file_rx, floor=0):
             continue
         n += 1
         b = g["body"]
-        ck.ob(rule, "getter/%s" % b.short, g["verdict"], "%s returns %s" % (b.short, ("its field `%s`" % g["field"]) if g["verdict"] else ("the field `%s` (same type) instead of `%s`" % ("/".join(sorted(g["got"])), g["field"]))), where=b.where())
+        ck.ob(rule, "getter/%s" % b.short, g["verdict"], "%s returns %s" % (b.short, ("its field `%s`" % g["field"]) if g["verdict"] else ("a value that also depends on `%s`, not the field `%s` alone" % ("/".join(sorted(g["got"] - {g["field"]})), g["field"])) if g.get("mixed") else ("the field `%s` (same type) instead of `%s`" % ("/".join(sorted(g["got"])), g["field"]))), where=b.where())
     if floor:
         ck.floor(rule, "accessors named after a field", n, floor, soft=True)
     return n
